@@ -118,8 +118,11 @@ def frame_check(I, st, frame, L, base, tags):
     missing = sorted(x for x in loop_carried(st) if x not in L._written)
     if missing:
         from .engine import Obligation
-        I.ctx.obligations.append(Obligation(base + "/frame", "frame", "failed", 0.0, "syntactic",
-                                            "loop-carried locals not covered by the loop contract: %s" % ", ".join(missing),
+        # the loop carries state the contract does not know: its one-arbitrary-iteration argument does not cover this
+        # version of the code.  Undecided (the contract needs updating), never a violation: the new local may be harmless
+        I.ctx.obligations.append(Obligation(base + "/frame", "frame", "unknown", 0.0, "syntactic",
+                                            "loop-carried locals not covered by the loop contract: %s "
+                                            "(the contract needs updating for this version of the code)" % ", ".join(missing),
                                             None, I.ctx.path_index, tags))
         raise PathEnd("frame")
 
